@@ -1,7 +1,7 @@
 (* Props/C05.v — Every due task is eventually dispatched: no lost or stranded wake-up. *)
 From GK Require Import SysCheck.
 From GK.Proofs Require Import SysSmall.
-From GK.Proofs Require SysProofs RestProofs VSysProofs VRestProofs.
+From GK.Proofs Require SysProofs RestProofs VSysProofs VRestProofs LiveProofs VLiveProofs.
 From GK Require Import VSys.
 
 (* a consumed fire is never simply lost: either a task is announced, or the scheduler records that the timer
@@ -89,3 +89,82 @@ Theorem C05_cron_predicate_holds_at_rest : forall nxt sc tr pending now s,
   vc05_ok tr' = true.
 Proof. exact VRestProofs.VC05_predicate_at_rest. Qed.
 Print Assumptions C05_cron_predicate_holds_at_rest.
+
+(* ================= liveness in the model (Proofs/LiveProofs.v, Proofs/VLiveProofs.v) =================
+   "every scheduled task whose time has come is dispatched after finitely many steps". Hook-timer configuration: *)
+
+(* from EVERY reachable state (whatever faults and user operations led there) the driver and the workers alone -
+   fault-free Step / Retry calls, fires, work starts and ends; no user operation, no clock advance - come to rest, by
+   the computable continuation [fst (drive (mu s) s)], within [mu s] labels *)
+Theorem C05_quiescence_reachable : forall tr s,
+  SysProofs.srun sys_init tr = Some s -> SysProofs.srun_ok sys_init tr ->
+  exists q s', Forall LiveProofs.driver_label q
+    /\ SysProofs.srun s q = Some s' /\ SysProofs.srun sys_init (tr ++ q) = Some s' /\ SysProofs.srun_ok sys_init (tr ++ q)
+    /\ LiveProofs.at_rest s' /\ (List.length q <= LiveProofs.mu s)%nat /\ sy_now s' = sy_now s
+    /\ (RestProofs.trace_disciplined tr = true -> RestProofs.trace_disciplined (tr ++ q) = true)
+    /\ (RestProofs.no_user_hook_fault tr = true -> RestProofs.no_user_hook_fault (tr ++ q) = true)
+    /\ (RestProofs.timer_started_first tr = true -> RestProofs.timer_started_first (tr ++ q) = true).
+Proof. exact LiveProofs.C05_quiescence_reachable. Qed.
+Print Assumptions C05_quiescence_reachable.
+
+(* not only that continuation: EVERY fault-free schedule of driver and worker labels is bounded by the measure, and
+   where it stops short of rest a further driver label is accepted - every maximal one ends at rest (no deadlock) *)
+Theorem C05_every_schedule_terminates : forall tr s q s',
+  SysProofs.srun sys_init tr = Some s -> SysProofs.srun_ok sys_init tr ->
+  Forall LiveProofs.driver_label q -> SysProofs.srun s q = Some s' ->
+  (List.length q + LiveProofs.mu s' <= LiveProofs.mu s)%nat
+  /\ (LiveProofs.at_rest s' \/ exists l s'', LiveProofs.driver_label l /\ SysProofs.sstepf s' l = Some s'' /\ RestProofs.disc s' l).
+Proof. exact LiveProofs.C05_every_schedule_terminates. Qed.
+Print Assumptions C05_every_schedule_terminates.
+
+(* ... and then every task that was scheduled and due is stored as dispatched, done or failed, and nothing due is
+   left (with the hypotheses of the rest-state theorem, each necessary: C05_liveness_hypotheses_needed) *)
+Theorem C05_every_due_task_is_dispatched : forall tr s,
+  SysProofs.srun sys_init tr = Some s -> SysProofs.srun_ok sys_init tr ->
+  RestProofs.timer_started_first tr = true -> RestProofs.no_user_hook_fault tr = true ->
+  RestProofs.trace_disciplined tr = true ->
+  exists q s', Forall LiveProofs.driver_label q
+    /\ SysProofs.srun sys_init (tr ++ q) = Some s' /\ SysProofs.srun_ok sys_init (tr ++ q)
+    /\ LiveProofs.at_rest s' /\ sy_now s' = sy_now s /\ (List.length q <= LiveProofs.mu s)%nat
+    /\ (forall t, In t (SysProofs.repo_of s') -> t_state t = Scheduled -> inst (sy_now s') < inst (t_sched t))
+    /\ (forall t, In t (SysProofs.repo_of s) -> t_state t = Scheduled -> inst (t_sched t) <= inst (sy_now s) ->
+        exists t', lookup (t_id t) (SysProofs.repo_of s') = Some t' /\ t_sched t' = t_sched t
+                   /\ (t_state t' = Dispatched \/ t_state t' = Done \/ t_state t' = Err)).
+Proof. exact LiveProofs.C05_every_due_task_is_dispatched. Qed.
+Print Assumptions C05_every_due_task_is_dispatched.
+
+(* cron configuration: in every reachable state that is not at rest the driver has an accepted next label (every
+   schedule function, every scheduler configuration) ... *)
+Theorem C05_cron_no_deadlock : forall nxt sc tr s,
+  VSysProofs.vrun nxt sc vsys_init tr = Some s -> VLiveProofs.at_rest s = false ->
+  exists l s', VLiveProofs.next_driver_label nxt s = Some l /\ VLiveProofs.driver_label l = true
+               /\ vsys_step nxt sc s l = Some s'.
+Proof. exact VLiveProofs.VC05_no_deadlock. Qed.
+Print Assumptions C05_cron_no_deadlock.
+
+(* ... and comes to rest with every occurrence that was due served (catch-up occurrences included), provided the
+   schedule moves strictly forward and no pending row carries schedule-at-now *)
+Theorem C05_cron_every_due_occurrence_is_served : forall nxt sc tr s,
+  (forall e t, inst t < inst (nxt e t)) ->
+  VSysProofs.vrun nxt sc vsys_init tr = Some s -> VRestProofs.vtimer_started tr = true ->
+  (forall p, In p (cr_pending (vs_cron s)) -> existsb VLiveProofs.is_now (pt_muts p) = false) ->
+  exists q s', VLiveProofs.driver_only q = true /\ VSysProofs.vrun nxt sc vsys_init (tr ++ q) = Some s'
+               /\ vs_pc s' = PSelect /\ tm_pending (cr_timer (vs_cron s')) = false
+               /\ vs_results s' = [] /\ vs_accepted s' = [] /\ vs_running s' = [] /\ vs_now s' = vs_now s
+               /\ (forall p, In p (cr_pending (vs_cron s')) -> inst (vs_now s') < inst (t_sched (pt_task p)))
+               /\ (forall p, In p (cr_pending (vs_cron s)) -> inst (t_sched (pt_task p)) <= inst (vs_now s) ->
+                             forall p', In p' (cr_pending (vs_cron s')) -> pt_ins p' <> pt_ins p).
+Proof. exact VLiveProofs.VC05_every_due_occurrence_is_served_strict. Qed.
+Print Assumptions C05_cron_every_due_occurrence_is_served.
+
+(* both hypotheses are needed: with a schedule-at-now row (under a frozen clock) no driver-only continuation ever
+   rests - which is why the cron pipeline suite excludes such rows *)
+Theorem C05_cron_schedule_at_now_never_rests :
+  (forall e t, inst t + 60000000000 <= inst (VSysProofs.ex_nxt e t))
+  /\ VSysProofs.vrun VSysProofs.ex_nxt scfg_fixed vsys_init VLiveProofs.tr_now = Some VLiveProofs.s_now
+  /\ VRestProofs.vtimer_started VLiveProofs.tr_now = true
+  /\ map (fun p => pt_muts p) (cr_pending (vs_cron VLiveProofs.s_now)) = [[MNow]]
+  /\ forall q s', VLiveProofs.driver_only q = true ->
+       VSysProofs.vrun VSysProofs.ex_nxt scfg_fixed VLiveProofs.s_now q = Some s' -> VLiveProofs.at_rest s' = false.
+Proof. exact VLiveProofs.VC05_quiescence_refuted_schedule_at_now. Qed.
+Print Assumptions C05_cron_schedule_at_now_never_rests.
